@@ -49,7 +49,8 @@ Definition bounds_of (pl : plan) (e2 : Z) : (N * N) * (N * N) :=
 Definition exp_exact_b (exp : N) : bool :=
   match plan_of exp with
   | Ok pl =>
-      let '((n1, d1), (n2, d2)) := bounds_of pl (e2_of exp) in
+      let '(lo, hi) := bounds_of pl (e2_of exp) in
+      let '(n1, d1) := widen_lo lo in let '(n2, d2) := widen_hi hi in
       nofrac frac_fuel true n1 d1 n2 d2 mp_max
   | _ => false
   end.
@@ -58,8 +59,9 @@ Definition exp_exact_b (exp : N) : bool :=
 Definition exp_except_b (exp xs ys : N) : bool :=
   match plan_of exp with
   | Ok pl =>
-      let '((n1, d1), (n2, d2)) := bounds_of pl (e2_of exp) in
-      nofrac frac_fuel false n1 d1 ys xs mp_max && nofrac frac_fuel true ys xs n2 d2 mp_max
+      let '(lo, hi) := bounds_of pl (e2_of exp) in
+      let '(n1, d1) := widen_lo lo in let '(n2, d2) := widen_hi hi in
+      nofrac frac_fuel false n1 d1 ys xs mp_max && nofrac frac_fuel true ys xs n2 d2 mp_max && (0 <? xs)
       && (N.gcd xs ys =? 1) && (mp_max <? 2 * xs)
   | _ => false
   end.
@@ -123,11 +125,20 @@ Proof.
   { intros xs ys GE Hne. unfold exp_except_b in GE. rewrite EP in GE.
     destruct (bounds_of pl (e2_of exp)) as [[n1 d1] [n2 d2]] eqn:EB.
     apply bounds_of_spec in EB. cbv zeta in EB. destruct EB as [Hle Hcases].
+    assert (P1 : 0 < d1 /\ 0 < d2) by (destruct Hcases as [(-> & -> & -> & ->)|(-> & -> & -> & ->)]; split; assumption).
+    destruct P1 as [P1 P2].
+    pose proof (widen_lo_spec n1 d1 P1) as [WL1 WL2]. pose proof (widen_hi_spec n2 d2 P2) as [WH1 WH2].
+    destruct (widen_lo (n1, d1)) as [n1' d1']. destruct (widen_hi (n2, d2)) as [n2' d2']. cbn [fst snd] in *.
     repeat (apply andb_true_iff in GE as [GE ?]).
     match goal with H : (N.gcd _ _ =? 1) = true |- _ => apply N.eqb_eq in H; rename H into GC end.
     match goal with H : (mp_max <? _) = true |- _ => apply N.ltb_lt in H; rename H into HX end.
+    match goal with H : (0 <? xs) = true |- _ => apply N.ltb_lt in H; rename H into Hxs end.
     match goal with H : nofrac _ true _ _ _ _ _ = true |- _ => apply nofrac_sound in H; rename H into NR end.
     apply nofrac_sound in GE. cbv iota in GE, NR.
+    assert (NL0 : NFL n1 d1 ys xs mp_max).
+    { apply (NFL_mono n1 d1 ys xs n1' d1' ys xs); try assumption; lia. }
+    assert (NR0 : NFR ys xs n2 d2 mp_max).
+    { apply (NFR_mono ys xs n2 d2 ys xs n2' d2'); try assumption; lia. }
     destruct Hcases as [(-> & -> & -> & ->)|(-> & -> & -> & ->)].
     - symmetry. apply (floor_eq_except _ _ _ _ mp_max xs ys); assumption.
     - apply (floor_eq_except _ _ _ _ mp_max xs ys); assumption. }
@@ -141,7 +152,12 @@ Proof.
   unfold exp_exact_b in G. rewrite EP in G.
   destruct (bounds_of pl (e2_of exp)) as [[n1 d1] [n2 d2]] eqn:EB.
   apply bounds_of_spec in EB. cbv zeta in EB. destruct EB as [Hle Hcases].
+  assert (P1 : 0 < d1 /\ 0 < d2) by (destruct Hcases as [(-> & -> & -> & ->)|(-> & -> & -> & ->)]; split; assumption).
+  destruct P1 as [P1 P2].
+  pose proof (widen_lo_spec n1 d1 P1) as [WL1 WL2]. pose proof (widen_hi_spec n2 d2 P2) as [WH1 WH2].
+  destruct (widen_lo (n1, d1)) as [n1' d1']. destruct (widen_hi (n2, d2)) as [n2' d2']. cbn [fst snd] in *.
   apply nofrac_sound in G. cbv iota in G.
+  apply (NFR_mono n1 d1 n2 d2 n1' d1' n2' d2') in G; try assumption.
   destruct Hcases as [(-> & -> & -> & ->)|(-> & -> & -> & ->)].
   - symmetry. apply (floor_eq _ _ _ _ mp_max); assumption.
   - apply (floor_eq _ _ _ _ mp_max); assumption.
@@ -172,4 +188,23 @@ Proof.
   destruct (ryu_indices_ok exp He) as (pl' & EP' & G & _). rewrite EP in EP'. inversion EP'; subst pl'.
   rewrite mulShift64_F by (assumption || lia).
   f_equal. apply (mulshift_exact exp); assumption.
+Qed.
+
+Theorem mulShift64_off_by_one :
+  (exists pl, plan_of 472 = Ok pl /\
+     mulShift64 28933731341339864 (p_mul pl) (p_sh pl) = Ok 2178999185345151730 /\
+     28933731341339864 * fst (ratio pl (e2_of 472)) / snd (ratio pl (e2_of 472)) = 2178999185345151731) /\
+  (exists pl, plan_of 1797 = Ok pl /\
+     mulShift64 33542060588139028 (p_mul pl) (p_sh pl) = Ok 1850063423920730049 /\
+     33542060588139028 * fst (ratio pl (e2_of 1797)) / snd (ratio pl (e2_of 1797)) = 1850063423920730048).
+Proof.
+  split.
+  - destruct (plan_of 472) as [pl| |] eqn:E; try (vm_compute in E; discriminate).
+    exists pl. split; [reflexivity|]. rewrite <- ratio_c_eq.
+    assert (E' : Ok pl = plan_of 472) by (symmetry; exact E). vm_compute in E'. inversion E'; subst pl.
+    vm_compute. split; reflexivity.
+  - destruct (plan_of 1797) as [pl| |] eqn:E; try (vm_compute in E; discriminate).
+    exists pl. split; [reflexivity|]. rewrite <- ratio_c_eq.
+    assert (E' : Ok pl = plan_of 1797) by (symmetry; exact E). vm_compute in E'. inversion E'; subst pl.
+    vm_compute. split; reflexivity.
 Qed.
